@@ -289,6 +289,8 @@ type Chain struct {
 	ts     uint64
 	nonce  uint64
 	Opt    Opts
+	forks  *uint64 // shared by all forks of one root chain: gives every fork its own nonce space
+	Frozen bool    // a per-process base chain shared between cases: forks of it start their own family
 }
 
 func NewChain(u *Universe, o Opts) *Chain {
@@ -303,7 +305,17 @@ func NewChain(u *Universe, o Opts) *Chain {
 
 // Fork returns a chain sharing blocks [0,n) with c (n = number of blocks kept).
 func (c *Chain) Fork(n int) *Chain {
-	f := &Chain{U: c.U, Opt: c.Opt, ts: c.ts + 1000, nonce: c.nonce + 1_000_000, verIdx: c.Opt.MinVersionIdx}
+	forks := c.forks
+	if c.Frozen {
+		forks = new(uint64) // keep cases independent of each other (and of their order)
+	} else if forks == nil {
+		c.forks = new(uint64)
+		forks = c.forks
+	}
+	*forks++
+	// distinct nonce space per fork: transactions whose hash is given rather than derived (Declare v0, Deploy)
+	// must not collide between forks
+	f := &Chain{U: c.U, Opt: c.Opt, ts: c.ts + 1000, nonce: (*forks) * 1_000_000_000, verIdx: c.Opt.MinVersionIdx, forks: forks}
 	f.Blocks = append(f.Blocks, c.Blocks[:n]...)
 	if n > 0 {
 		for i, v := range Versions {
